@@ -5,7 +5,8 @@ import json
 import absval as A
 import blockrun as B
 
-RULE = ("same generator as C01 (valid blocks of nine types, every nested item kind); per case three numbers for the block "
+RULE = ("(2 % of the blocks, 8 % in the thorough tier, sit on the scale axis: 255 ... 65537 frames or 15 ... 257 items) " 
+        "same generator as C01 (valid blocks of nine types, every nested item kind); per case three numbers for the block "
         "(nBytes, len(_write), tell() after _build on bytes+sentinel tail) and (nBytes, len) per nested item; thorough: the 8 "
         "blocks of the BTS capture against the jump-table sizes. non-trivial as C01")
 ASSUMPTIONS = ["Data2D cells may be float32 or float64 arrays (the property's quantifier); on disk both are float32"]
